@@ -187,8 +187,16 @@ func utxoRun(a []string) (string, []string) {
 		return "bad-op", nil
 	}
 	var opsList []string
+	nilOps := false
 	if a[1] != "_" {
 		opsList = strings.Split(a[1], ";")
+		for _, o := range opsList {
+			// nil arguments panic or not depending on the set's internal representation, which the model
+			// follows along the clone; with them the run always continues on the clone
+			if o == "an" || o == "ron" || o == "gon" {
+				nilOps = true
+			}
+		}
 	}
 	set := unspent.NewOutputSet(nil)
 	ref := map[tx.PrevOut]refVal{}
@@ -323,9 +331,15 @@ func utxoRun(a []string) (string, []string) {
 			case "sl":
 				return "l=" + sliceStr(set.Slice())
 			case "cl":
+				// the run continues on the clone and the original is watched, or the other way round: neither
+				// may follow the other's later changes
 				c := set.Clone()
-				kept = append(kept, retained{set, cloneRef(ref), i})
-				set = c
+				if i%2 == 0 || nilOps {
+					kept = append(kept, retained{set, cloneRef(ref), i})
+					set = c
+				} else {
+					kept = append(kept, retained{c, cloneRef(ref), i})
+				}
 				return "u"
 			case "n":
 				if (len(f)-1)%4 != 0 {
@@ -399,7 +413,7 @@ func utxoRun(a []string) (string, []string) {
 	}
 	for _, r := range kept {
 		if msg := agree(r.set, r.snap, nil); msg != "" {
-			fail(r.at, "cl/n", "the set left behind by Clone/NewOutputSet changed afterwards: "+msg)
+			fail(r.at, "cl/n", "a set that Clone/NewOutputSet separated from the running one (the original left behind, or the clone put aside) changed afterwards: "+msg)
 		}
 	}
 	return "ok " + strings.Join(outs, ";") + " final=" + sliceStr(set.Slice()), direct
